@@ -54,6 +54,58 @@ func (f *TermFactory) declTextNative() string {
 	return sb.String()
 }
 
+// weaken returns a formula implied by t (pos) / implying t (!pos) in which quantifiers that the model
+// finder cannot handle are dropped: universal facts in assumption position become true, existential
+// ones in goal position become false. A model of the weakened negated obligation may be spurious; it is
+// only trusted after it has been replayed on the real code.
+func (f *TermFactory) weaken(t *Term, pos bool, memo map[[2]int]*Term) *Term {
+	if t.sort != SBool {
+		return t
+	}
+	k := [2]int{t.id, 0}
+	if pos {
+		k[1] = 1
+	}
+	if r, ok := memo[k]; ok {
+		return r
+	}
+	var r *Term
+	switch t.op {
+	case "forall":
+		if pos {
+			r = f.True()
+		} else {
+			r = t
+		}
+	case "exists":
+		if !pos {
+			r = f.False()
+		} else {
+			r = t
+		}
+	case "not":
+		r = f.Not(f.weaken(t.args[0], !pos, memo))
+	case "and":
+		as := make([]*Term, len(t.args))
+		for i, a := range t.args {
+			as[i] = f.weaken(a, pos, memo)
+		}
+		r = f.And(as...)
+	case "or":
+		as := make([]*Term, len(t.args))
+		for i, a := range t.args {
+			as[i] = f.weaken(a, pos, memo)
+		}
+		r = f.Or(as...)
+	case "=>":
+		r = f.Implies(f.weaken(t.args[0], !pos, memo), f.weaken(t.args[1], pos, memo))
+	default:
+		r = t
+	}
+	memo[k] = r
+	return r
+}
+
 // NativeText renders goal i negated in the native encoding, with extra assertions and a get-value request.
 func (s *Script) NativeText(i int, extra []*Term, values []*Term) string {
 	f := s.f
@@ -74,7 +126,8 @@ func (s *Script) NativeText(i int, extra []*Term, values []*Term) string {
 	roots := append([]*Term{}, f.ranges...)
 	roots = append(roots, s.Extra...)
 	roots = append(roots, extra...)
-	roots = append(roots, s.Goals[i])
+	neg := f.weaken(f.Not(s.Goals[i]), true, map[[2]int]*Term{})
+	roots = append(roots, neg)
 	roots = append(roots, values...)
 	p := &Printer{f: f, defined: map[int]string{}, out: &strings.Builder{}, refs: map[int]int{}}
 	txt := p.Define(roots...)
@@ -83,7 +136,7 @@ func (s *Script) NativeText(i int, extra []*Term, values []*Term) string {
 	for k := 0; k < na; k++ {
 		fmt.Fprintf(&sb, "(assert %s)\n", txt[k])
 	}
-	fmt.Fprintf(&sb, "(assert (not %s))\n(check-sat)\n", txt[na])
+	fmt.Fprintf(&sb, "(assert %s)\n(check-sat)\n", txt[na])
 	if len(values) > 0 {
 		fmt.Fprintf(&sb, "(get-value (%s))\n", strings.Join(txt[na+1:], "\n "))
 	}
